@@ -63,11 +63,28 @@ impl Endian {
 // --------------------------------------------------------------------------
 // Marshalling
 
+#[derive(Clone, Copy, Debug, PartialEq, Eq)]
+pub enum Mark {
+    Pad,
+    ArrayLen,
+    StrLen,
+    Nul,
+    Bool,
+    SigLen,
+    SigByte,
+    StrByte,
+    PathByte,
+    FdIndex,
+    Fixed,
+}
+
 pub struct Out {
     pub buf: Vec<u8>,
     /// absolute position of buf[0] within the message
     pub base: usize,
     pub endian: Endian,
+    /// (offset in buf, kind) of structurally interesting bytes, for mutators
+    pub marks: Vec<(usize, Mark)>,
 }
 
 impl Out {
@@ -76,6 +93,7 @@ impl Out {
             buf: Vec::new(),
             base,
             endian,
+            marks: Vec::new(),
         }
     }
     pub fn abs(&self) -> usize {
@@ -83,15 +101,23 @@ impl Out {
     }
     pub fn pad(&mut self, align: usize) {
         while self.abs() % align != 0 {
+            self.marks.push((self.buf.len(), Mark::Pad));
             self.buf.push(0);
         }
+    }
+    fn mark(&mut self, m: Mark) {
+        self.marks.push((self.buf.len(), m));
     }
     pub fn put(&mut self, v: &Val) {
         let e = self.endian;
         match v {
-            Val::Y(x) => self.buf.push(*x),
+            Val::Y(x) => {
+                self.mark(Mark::Fixed);
+                self.buf.push(*x)
+            }
             Val::B(x) => {
                 self.pad(4);
+                self.mark(Mark::Bool);
                 self.buf.extend_from_slice(&e.u32(*x as u32));
             }
             Val::N(x) => {
@@ -108,6 +134,7 @@ impl Out {
             }
             Val::U(x) | Val::H(x) => {
                 self.pad(4);
+                self.mark(if matches!(v, Val::H(_)) { Mark::FdIndex } else { Mark::Fixed });
                 self.buf.extend_from_slice(&e.u32(*x));
             }
             Val::X(x) => {
@@ -120,24 +147,41 @@ impl Out {
             }
             Val::S(s) | Val::O(s) => {
                 self.pad(4);
+                self.mark(Mark::StrLen);
                 self.buf.extend_from_slice(&e.u32(s.len() as u32));
-                self.buf.extend_from_slice(s.as_bytes());
+                let kind = if matches!(v, Val::O(_)) { Mark::PathByte } else { Mark::StrByte };
+                for b in s.as_bytes() {
+                    self.mark(kind);
+                    self.buf.push(*b);
+                }
+                self.mark(Mark::Nul);
                 self.buf.push(0);
             }
             Val::G(s) => {
+                self.mark(Mark::SigLen);
                 self.buf.push(s.len() as u8);
-                self.buf.extend_from_slice(s.as_bytes());
+                for b in s.as_bytes() {
+                    self.mark(Mark::SigByte);
+                    self.buf.push(*b);
+                }
+                self.mark(Mark::Nul);
                 self.buf.push(0);
             }
             Val::V(inner) => {
                 let s = inner.sig().to_sig_string();
+                self.mark(Mark::SigLen);
                 self.buf.push(s.len() as u8);
-                self.buf.extend_from_slice(s.as_bytes());
+                for b in s.as_bytes() {
+                    self.mark(Mark::SigByte);
+                    self.buf.push(*b);
+                }
+                self.mark(Mark::Nul);
                 self.buf.push(0);
                 self.put(inner);
             }
             Val::A(es, xs) => {
                 self.pad(4);
+                self.mark(Mark::ArrayLen);
                 let len_at = self.buf.len();
                 self.buf.extend_from_slice(&[0; 4]);
                 self.pad(es.align_dbus());
@@ -150,6 +194,7 @@ impl Out {
             }
             Val::Dict(_, _, entries) => {
                 self.pad(4);
+                self.mark(Mark::ArrayLen);
                 let len_at = self.buf.len();
                 self.buf.extend_from_slice(&[0; 4]);
                 self.pad(8);
@@ -171,6 +216,13 @@ impl Out {
             Val::M(..) => panic!("maybe is not a D-Bus type"),
         }
     }
+}
+
+/// Marshal and return the structural marks as well.
+pub fn marshal_marked(v: &Val, endian: Endian, offset: usize) -> (Vec<u8>, Vec<(usize, Mark)>) {
+    let mut o = Out::new(endian, offset);
+    o.put(v);
+    (o.buf, o.marks)
 }
 
 /// Marshal one value whose first byte (padding included) lands at absolute
@@ -630,5 +682,101 @@ mod tests {
         let b = vec![1, 1, 0, 0, 2, 0, 0, 0];
         let st = Sig::St(vec![Sig::Y, Sig::I]);
         assert_eq!(unmarshal(&b, &st, Endian::Le, 0, None).unwrap_err().0, Reason::PaddingNonZero);
+    }
+}
+
+// --------------------------------------------------------------------------
+// Structure-aware mutation of marshalled data
+
+use crate::prng::Rng;
+
+/// Apply one structure-aware mutation; returns the mutated bytes and a label.
+pub fn mutate(bytes: &[u8], marks: &[(usize, Mark)], e: Endian, rng: &mut Rng) -> (Vec<u8>, &'static str) {
+    let mut b = bytes.to_vec();
+    if b.is_empty() {
+        return (vec![rng.next_u64() as u8], "grow-empty");
+    }
+    let choice = rng.below(10);
+    if choice < 6 && !marks.is_empty() {
+        let (pos, kind) = *rng.pick(marks);
+        if pos + 4 > b.len() {
+            let n = rng.usize_below(b.len());
+            b.truncate(n);
+            return (b, "truncate");
+        }
+        match kind {
+            Mark::Pad => {
+                b[pos] = 1 + rng.below(255) as u8;
+                return (b, "pad-nonzero");
+            }
+            Mark::Nul => {
+                b[pos] = 1 + rng.below(255) as u8;
+                return (b, "terminator-nonzero");
+            }
+            Mark::Bool => {
+                let v: u32 = *rng.pick(&[2u32, 255, 256, 0x0100_0000, 0xffff_ffff, 0x8000_0000]);
+                b[pos..pos + 4].copy_from_slice(&e.u32(v));
+                return (b, "bool-out-of-range");
+            }
+            Mark::ArrayLen | Mark::StrLen => {
+                let old = e.rd32(&b[pos..pos + 4]);
+                let delta: i64 = *rng.pick(&[1i64, -1, 2, -2, 4, -4, 7, 8, -8, 1 << 16, 1 << 26, 1 << 31]);
+                let new = (old as i64 + delta).max(0) as u32;
+                b[pos..pos + 4].copy_from_slice(&e.u32(new));
+                return (b, if kind == Mark::ArrayLen { "array-len-edit" } else { "str-len-edit" });
+            }
+            Mark::SigLen => {
+                let d: i16 = *rng.pick(&[1i16, -1, 2, 100]);
+                b[pos] = (b[pos] as i16 + d).clamp(0, 255) as u8;
+                return (b, "sig-len-edit");
+            }
+            Mark::SigByte => {
+                b[pos] = *rng.pick(b"ybnqiuxtdsogvha(){}mz\0\xff");
+                return (b, "sig-byte-edit");
+            }
+            Mark::StrByte => {
+                b[pos] = *rng.pick(&[0u8, 0xff, 0xc0, 0x80, 0xed, 0xf8, b'/']);
+                return (b, "str-byte-edit");
+            }
+            Mark::PathByte => {
+                b[pos] = *rng.pick(&[0u8, b'/', b'-', b'.', 0xc3, b' ', b'a']);
+                return (b, "path-byte-edit");
+            }
+            Mark::FdIndex => {
+                let v: u32 = *rng.pick(&[1u32, 2, 3, 100, 0xffff_ffff]);
+                b[pos..pos + 4].copy_from_slice(&e.u32(v));
+                return (b, "fd-index-edit");
+            }
+            Mark::Fixed => {
+                b[pos] ^= 1 << rng.below(8);
+                return (b, "fixed-flip");
+            }
+        }
+    }
+    match choice {
+        6 => {
+            let n = rng.usize_below(b.len());
+            b.truncate(n);
+            (b, "truncate")
+        }
+        7 => {
+            let p = rng.usize_below(b.len());
+            b[p] ^= 1 << rng.below(8);
+            (b, "bit-flip")
+        }
+        8 => {
+            let p = rng.usize_below(b.len());
+            b[p] = rng.next_u64() as u8;
+            (b, "byte-set")
+        }
+        _ => {
+            // splice: copy a random chunk over another place
+            let n = 1 + rng.usize_below(b.len().min(8));
+            let from = rng.usize_below(b.len() - n + 1);
+            let to = rng.usize_below(b.len() - n + 1);
+            let chunk = b[from..from + n].to_vec();
+            b[to..to + n].copy_from_slice(&chunk);
+            (b, "splice")
+        }
     }
 }
